@@ -1350,11 +1350,10 @@ theorem Trace.pushPaths_sublist {f : Forest} {w : List Event} (h : Trace f w) :
     obtain ⟨l2, hs2, he2⟩ := ih2 stk rest
     refine ⟨(stk ++ [s]) :: l1 ++ l2, ?_, ?_⟩
     · simp only [pathsKids, pathsTree, List.cons_append]
-      exact List.Sublist.cons₂ _ (List.Sublist.append hs1 hs2)
+      exact List.Sublist.cons_cons _ (List.Sublist.append hs1 hs2)
     · simp only [List.cons_append, List.append_assoc, pushPaths]
       rw [he1]
       simp only [pushPaths, List.dropLast_concat]
       rw [he2]
-      simp
 
 end Model.Range
